@@ -459,21 +459,48 @@ class Builder:
 # --------------------------------------------------------------------------
 # what a faithful re-read of a faithful text looks like
 # --------------------------------------------------------------------------
+def canon_real(text):
+    """Canonical text of a real literal value: '<digits>e<exponent>' with
+    an integer mantissa without trailing zeros ('1.50' -> '15e-1').  Real
+    literals are compared by value and precision, not by spelling: a
+    correct writer may have to re-spell a value to express its type
+    ('1' -> '1.0', '0.1' DOUBLE -> '0.1d0')."""
+    text = text.lower()
+    sign = ""
+    if text[0] in "+-":
+        sign, text = text[0], text[1:]
+    mant, _, exp = text.partition("e")
+    exp = int(exp) if exp else 0
+    whole, _, frac = mant.partition(".")
+    digits = (whole + frac).lstrip("0")
+    exp -= len(frac)
+    if not digits:
+        return "0e0"
+    stripped = digits.rstrip("0")
+    exp += len(digits) - len(stripped)
+    return f"{sign}{stripped}e{exp}"
+
+
 def expected_reread(spec):
     """The Fortran frontend cannot produce (a) signed literals - '-1' is
     read as MINUS applied to '1' - and (b) does not distinguish
-    SINGLE from UNDEFINED precision for reals.  Everything else must come
-    back unchanged."""
+    SINGLE from UNDEFINED precision for reals; (c) real literal values are
+    compared in the canonical spelling of canon_real.  Everything else must
+    come back unchanged."""
     def fn(node):
         if node[0] != "lit":
             return node
         _, ty, text, prec = node
         if ty == "real" and prec == "single":
             prec = "undef"
+        oper = None
         if ty in ("int", "real") and text[0] in "+-":
             oper = "MINUS" if text[0] == "-" else "PLUS"
-            return ["un", oper, ["lit", ty, text[1:], prec]]
-        return ["lit", ty, text, prec]
+            text = text[1:]
+        if ty == "real":
+            text = canon_real(text)
+        lit = ["lit", ty, text, prec]
+        return ["un", oper, lit] if oper else lit
     return transform(spec, fn)
 
 
